@@ -6,6 +6,7 @@ CONSTANTS
   Nids = {0, 1, 2}
   Bodies = {"x", "nil"}
   Auxes = {1, 2}
+  Us = {0, 1}
   MaxOps = 3
   Ops = {"recv"}
 VIEW ViewNoHist
